@@ -21,6 +21,7 @@ Replay ==
   /\ l <= Len(H.hist) /\ l' = l + 1 /\ UNCHANGED k
   /\ CASE E.op = "unit"     -> Unit(E.seq, E.pos, E.kind, E.v)
        [] E.op \in {"block", "loop"} -> NewBlock(E.seq, E.pos, E.op)
+       [] E.op = "tblock"   -> NewTypedBlock(E.seq, E.pos, E.kind, E.v)
        [] E.op = "ifelse"   -> NewIfElse(E.seq, E.pos)
        [] E.op = "dangling" -> NewDangling
        [] E.op = "attach"   -> Attach(E.seq, E.pos, E.d, E.kind)
